@@ -552,7 +552,7 @@ Section InjectProof.
           -- apply good_res_refl. rewrite json_nodup_arr. apply forallb_forall. auto.
           -- intros x Hin. specialize (Hsh x Hin). rewrite shp_strip in Hsh.
              destruct (strip_cases t') as [[n2 [E2 _]]|[t2 [E2 [Hl2 _]]]]; [|congruence].
-             rewrite E2 in Hsh. rewrite shp_eq in Hsh. destruct x; auto. discriminate.
+             rewrite E2 in Hsh. rewrite shp_eq in Hsh. destruct x; auto; discriminate.
   Qed.
 
   (* processObjectOrListInput on a well-shaped value: same coercibility, keys still unique, null stays null *)
@@ -568,9 +568,9 @@ Section InjectProof.
     destruct (lookup S (named_of t)) as [td|] eqn:El; [|apply good_res_refl; auto].
     destruct (jnull v) eqn:Hnull.
     { destruct v; try discriminate. destruct (td_kind td); simpl; auto. }
-    simpl in He.
+    rewrite orb_false_l in He.
     destruct (td_kind td) eqn:Ek; try (apply good_res_refl; auto; fail);
-      apply andb_true_iff in He; destruct He as [He1 He2];
+      cbv iota beta in He; apply andb_true_iff in He; destruct He as [He1 He2];
         (apply (core_ok fuel IH t v td El); [rewrite Ek; discriminate| | | | |]; auto; rewrite Ek; auto).
   Qed.
 End InjectProof.
